@@ -31,6 +31,8 @@ import copy
 import os
 
 MAXUNROLL = 24
+# which private same-module helpers are inlined at statement level: "all", or only those that move records around ("plumbing")
+INLINE_POLICY = os.environ.get("VERIF_INLINE", "simple")
 MAXSTMTS = 600
 SEP = "__"
 
@@ -974,6 +976,11 @@ class FnPE:
             a = self.expr(call.args[0], env, pre)
             if is_rec_lit(a):
                 items += [(k.value, v) for k, v in zip(a.keys, a.values)]
+            elif isinstance(a, ast.Call) and isinstance(a.func, ast.Name) and a.func.id == "zip" and len(a.args) == 2 and self.iter_elems(a) is None:
+                pairs = self.zip_call_pairs(a, pre)
+                if pairs is None or (isinstance(pairs, tuple) and pairs and pairs[0] == "lambda"):
+                    return None
+                items += [(k.value, v) for k, v in pairs]
             else:
                 el = self.iter_elems(a)
                 if el is None or not all(isinstance(e, ast.Tuple) and len(e.elts) == 2 and const_key(e.elts[0]) for e in el):
@@ -1306,6 +1313,9 @@ class FnPE:
                     and isinstance(l.value, (str, bool, type(None))) and isinstance(r.value, (str, bool, type(None))):
                 self.stat("folds")
                 return const((l.value == r.value) == isinstance(op, ast.Eq), e)
+            if isinstance(op, (ast.Is, ast.IsNot)) and isinstance(r, ast.Constant) and r.value is None and isinstance(l, (ast.Dict, ast.Tuple, ast.List)):
+                self.stat("folds")
+                return const(isinstance(op, ast.IsNot), e)          # a dict / tuple / list display is never None
             if isinstance(op, (ast.Is, ast.IsNot)) and isinstance(l, ast.Constant) and isinstance(r, ast.Constant) \
                     and (l.value is None or r.value is None) and isinstance(l.value, (str, bool, type(None))) and isinstance(r.value, (str, bool, type(None))):
                 return const((l.value is r.value) == isinstance(op, ast.Is), e)
@@ -1584,6 +1594,19 @@ class FnPE:
                         base = [(x.elts[0], x.elts[1]) for x in el]
                     elif isinstance(nargs[0], ast.Call) and isinstance(nargs[0].func, ast.Name) and nargs[0].func.id == "zip" and len(nargs[0].args) == 2:
                         base = self.zip_call_pairs(nargs[0], pre)
+                        if isinstance(base, tuple) and base and base[0] == "lambda":
+                            # nothing can be hoisted here (inside a comprehension / conditional): the call result gets its name as the
+                            # parameter of an immediately applied lambda   dict(zip(K, f(x))) == (lambda t: {K0: t[0], ...})(f(x))
+                            if kws:
+                                base = None
+                            else:
+                                _, lkeys, lsrc = base
+                                t = self.fresh("_t")
+                                body = ast.Dict(keys=[copy.deepcopy(k) for k in lkeys],
+                                                values=[ast.Subscript(value=name(t), slice=const(i), ctx=ast.Load()) for i in range(len(lkeys))])
+                                lam = ast.Lambda(args=ast.arguments(posonlyargs=[], args=[ast.arg(arg=t)], kwonlyargs=[], kw_defaults=[], defaults=[]), body=body)
+                                self.stat("folds")
+                                return ast.fix_missing_locations(ast.copy_location(ast.Call(func=lam, args=[lsrc], keywords=[]), c))
                 if base is not None:
                     seen = {}
                     for k, v in base:
@@ -1628,7 +1651,7 @@ class FnPE:
             if ar is not None and ar < len(keys):
                 keys = keys[:ar]
             if pre is None:
-                return None
+                return ("lambda", keys, src)
             t = self.fresh("_t")
             pre.append(ast.copy_location(ast.Assign(targets=[name(t, ast.Store(), z)], value=src), z))
             self.locals.add(t)
@@ -1772,8 +1795,14 @@ class FnPE:
         if id(fn) in self.D.stack or fn is self.fn or any(x is fn for x in getattr(self, "inline_stack", [])):
             return None
         callee = self.D.function(self.m, fn, owner)
-        if not (self.is_plumbing(fn, call) or self.is_plumbing(callee, call)):
-            return None
+        plumbing = self.is_plumbing(fn, call) or self.is_plumbing(callee, call)
+        if not plumbing:
+            # other helpers are inlined when that needs no restructuring: one return, at the end (early returns would have to be
+            # turned into if/else chains whose merges hide the correlation between the helper's paths and the caller's tests)
+            rets = [n for n in own_nodes(callee.body) if isinstance(n, ast.Return)]
+            simple = (len(rets) == 1 and callee.body and callee.body[-1] is rets[0]) or not rets
+            if INLINE_POLICY == "plumbing" or not (simple or INLINE_POLICY == "all"):
+                return None
         if has_node(callee.body, (ast.Yield, ast.YieldFrom, ast.Nonlocal, ast.Global, ast.Await)):
             return None
         for n in own_nodes(callee.body):
